@@ -41,6 +41,30 @@ def _stateless(e, fi):
     return True
 
 
+def _helper_reset(ctx, fi, e, attr):
+    """``self.h(<parameters / constants>)`` where h (a method of the same object) does not read self.<attr>: the new value does not
+    depend on the old one"""
+    if ctx is None or not (isinstance(e, ast.Call) and isinstance(e.func, ast.Attribute) and isinstance(e.func.value, ast.Name) and e.func.value.id == "self" and fi.cls is not None):
+        return False
+    h = ctx.p.lookup_method(fi.cls, e.func.attr)
+    if h is None or not all(_stateless(a, fi) for a in list(e.args) + [k.value for k in e.keywords]):
+        return False
+    seen, work = set(), [h]
+    while work:
+        g = work.pop()
+        if g.qualname in seen:
+            continue
+        seen.add(g.qualname)
+        if any(is_self_attr(x, attr) for x in walk_no_nested(g.node)):
+            return False
+        for c in q.calls(g):
+            if isinstance(c.func, ast.Attribute) and isinstance(c.func.value, ast.Name) and c.func.value.id == "self":
+                t = ctx.p.lookup_method(fi.cls, c.func.attr)
+                if t is not None:
+                    work.append(t)
+    return True
+
+
 def reset_nodes(cfg, fi, attr, ctx=None, _depth=0):
     """CFG nodes that start ``self.<attr>`` afresh: rebind to a fresh value, .clear(), or a call of a
     method of the same object that does so on all of its paths."""
@@ -59,7 +83,7 @@ def reset_nodes(cfg, fi, attr, ctx=None, _depth=0):
             continue
         if isinstance(a, ast.Assign):
             for t in a.targets:
-                if is_self_attr(t, attr) and (q.is_fresh_expr(a.value) or _stateless(a.value, fi)):
+                if is_self_attr(t, attr) and (q.is_fresh_expr(a.value) or _stateless(a.value, fi) or _helper_reset(ctx, fi, a.value, attr)):
                     out.append(n)
         elif isinstance(a, ast.Expr) and isinstance(a.value, ast.Call) and isinstance(a.value.func, ast.Attribute) \
                 and a.value.func.attr == "clear" and is_self_attr(a.value.func.value, attr):
